@@ -100,7 +100,7 @@ func dumpDep(p *Prog, st *State, v Val) string {
 }
 
 func checkC05(p *Prog, rp *Report) {
-	rp.Explanation = "C05-FIELDS: every field of the dependency structures that the parser's call tree stores into is loaded somewhere in the call tree of Dependency.String (a field the renderer never looks at cannot survive a round trip). C05-BYTES: no function reachable from the parser converts an integer (a byte of the input) to a string, which would re-encode bytes >= 0x80. C05-NOEMPTY: (parser transition system of C04) no relation without alternatives and no empty profile group or profile is ever stored, so nothing the parser stores renders to nothing. C05-ARCH: parse / render / parse of architecture names interpreted abstractly on every name of 1 to 4 hyphen separated components over {any, all, gnu, linux, x, y}, through ParseArch and through Arch.UnmarshalControl: the (abi, os, cpu) triple is unchanged. C05-FIXPOINT: Parse, Dependency.String and Parse again interpreted on a family of accepted fields (every combination of qualifier, version clause, positive/negated architecture list, profile groups, substvar, alternatives and relations, with regular and irregular spacing): the rendering is accepted and parses to the same structure."
+	rp.Explanation = "C05-FIELDS: every field of the dependency structures that the parser's call tree stores into is loaded somewhere in the call tree of Dependency.String (a field the renderer never looks at cannot survive a round trip). C05-BYTES: no function reachable from the parser converts an integer (a byte of the input) to a string, which would re-encode bytes >= 0x80. C05-NOEMPTY: (parser transition system of C04) no relation without alternatives and no empty profile group or profile is ever stored, so nothing the parser stores renders to nothing. C05-ALIAS: decode, copy the value, decode again into the same variable: the copy is unchanged and the variable holds exactly the second value. C05-ARCH: parse / render / parse of architecture names interpreted abstractly on every name of 1 to 4 hyphen separated components over {any, all, gnu, linux, x, y}, through ParseArch and through Arch.UnmarshalControl: the (abi, os, cpu) triple is unchanged. C05-FIXPOINT: Parse, Dependency.String and Parse again interpreted on a family of accepted fields (every combination of qualifier, version clause, positive/negated architecture list, profile groups, substvar, alternatives and relations, with regular and irregular spacing): the rendering is accepted and parses to the same structure."
 	rp.NotDecided = "the fixpoint for every accepted string (C05-FIXPOINT covers a generated family, the other clauses are universal); bytes >= 0x80 inside names."
 	rp.Trusted = []string{"go/types, go/ssa", "strings.SplitN / Join / Contains models", "C04 (parser transition system)"}
 	parse := p.Func("dependency", "Parse")
